@@ -17,6 +17,17 @@ use std::collections::{BTreeMap, BTreeSet};
 
 pub const APPS: &[&str] = &["live", "app", "vod/inst"];
 pub const KEYS: &[&str] = &["key1", "abc", "stream?x=1"];
+
+/// Stream key for a key index: 0..2 the short keys; 3 a key of 65500 bytes — a legal AMF0 string,
+/// but the status description the server builds from it ("Successfully started … on stream key
+/// <key>") no longer fits, so accepting such a request is refused with an error.
+pub fn key_str(k: u8) -> String {
+    if k % 4 == 3 {
+        "K".repeat(65_500)
+    } else {
+        KEYS[k as usize % 4 % KEYS.len()].to_string()
+    }
+}
 pub const MODES: &[&str] = &["live", "record", "append", "LIVE", "bogus"];
 
 #[derive(Clone, Debug, Serialize, Deserialize, PartialEq)]
@@ -365,11 +376,11 @@ fn eval_inner(case: &Case, clock: &Clock, ex: &mut Exec, age: &mut u64) -> Verdi
             SOp::CreateStream { tid } => Concrete::Peer { bytes: peer.send(&command("createStream", *tid as f64, V::Null, vec![]), 0, peer_ts), cut: *cut },
             SOp::Publish { stream, key, mode } => {
                 let sid = model.stream_id(stream);
-                Concrete::Peer { bytes: peer.send(&command("publish", 0.0, V::Null, vec![st(KEYS[*key as usize % KEYS.len()]), st(MODES[*mode as usize % MODES.len()])]), sid, peer_ts), cut: *cut }
+                Concrete::Peer { bytes: peer.send(&command("publish", 0.0, V::Null, vec![st(&key_str(*key)), st(MODES[*mode as usize % MODES.len()])]), sid, peer_ts), cut: *cut }
             }
             SOp::Play { stream, key, nargs, start, duration, reset } => {
                 let sid = model.stream_id(stream);
-                let mut args = vec![st(KEYS[*key as usize % KEYS.len()])];
+                let mut args = vec![st(&key_str(*key))];
                 let extra = [num(*start as f64), num(*duration as f64), V::Bool(*reset as u8)];
                 for a in extra.iter().take(*nargs as usize % 4) {
                     args.push(a.clone());
@@ -514,7 +525,8 @@ fn eval_inner(case: &Case, clock: &Clock, ex: &mut Exec, age: &mut u64) -> Verdi
             SOp::Publish { stream, key, mode } | SOp::Play { stream, key, nargs: mode, .. } => {
                 let is_publish = matches!(op, SOp::Publish { .. });
                 let sid = model.stream_id(stream);
-                let want_key = KEYS[*key as usize % KEYS.len()];
+                let want_key = key_str(*key);
+                let want_key = want_key.as_str();
                 let evs: Vec<(u32, String, String, u32)> = o
                     .events
                     .iter()
@@ -569,10 +581,13 @@ fn eval_inner(case: &Case, clock: &Clock, ex: &mut Exec, age: &mut u64) -> Verdi
                         Req::Publish(s, _) | Req::Play(s, _) => !model.streams.contains_key(s),
                         Req::Connect(_) => false,
                     };
-                    if !stream_gone {
+                    // a key so long that the status description cannot be expressed may be refused
+                    let unexpressible = accept && matches!(&r, Req::Publish(_, k) | Req::Play(_, k) if k.len() > 65_400);
+                    if !stream_gone && !unexpressible {
                         vensure!(o.err.is_none(), "{}: {} of the outstanding request {} failed: {:?}", at, if accept { "accept" } else { "reject" }, id, o.err);
                         j.judged += 1;
                     }
+                    j.obs.class_if(unexpressible && o.err.is_some(), "accept-refused-for-unexpressible-key");
                     if accept && o.err.is_none() {
                         match r {
                             Req::Connect(app) => {
@@ -832,8 +847,8 @@ pub fn sop() -> BoxedStrategy<SOp> {
     prop_oneof![
         4 => (0u8..3, any::<bool>(), 0u8..3, 1u8..5).prop_map(|(app, slash, enc, tid)| SOp::Connect { app, slash, enc, tid }),
         5 => (2u8..9).prop_map(|tid| SOp::CreateStream { tid }),
-        5 => (stream_ref(), 0u8..3, prop_oneof![8 => 0u8..4, 1 => Just(4u8)]).prop_map(|(stream, key, mode)| SOp::Publish { stream, key, mode }),
-        4 => (stream_ref(), 0u8..3, 0u8..4, -3i8..5, -2i8..5, any::<bool>()).prop_map(|(stream, key, nargs, start, duration, reset)| SOp::Play { stream, key, nargs, start, duration, reset }),
+        5 => (stream_ref(), prop_oneof![40 => 0u8..3, 1 => Just(3u8)], prop_oneof![8 => 0u8..4, 1 => Just(4u8)]).prop_map(|(stream, key, mode)| SOp::Publish { stream, key, mode }),
+        4 => (stream_ref(), prop_oneof![40 => 0u8..3, 1 => Just(3u8)], 0u8..4, -3i8..5, -2i8..5, any::<bool>()).prop_map(|(stream, key, nargs, start, duration, reset)| SOp::Play { stream, key, nargs, start, duration, reset }),
         3 => stream_ref().prop_map(|stream| SOp::CloseStream { stream }),
         3 => stream_ref().prop_map(|stream| SOp::DeleteStream { stream }),
         4 => (stream_ref(), gen::edge_u32(), 0u16..300).prop_map(|(stream, ts, len)| SOp::Audio { stream, ts, len }),
@@ -942,7 +957,7 @@ pub fn spec() -> PropSpec {
     PropSpec {
         id: "C09",
         level: "exploration",
-        rule: "histories of 1..25 operations over peer messages {connect (3 apps, trailing '/', objectEncoding), createStream, publish (created / zero / unknown stream, 3 keys, modes live/record/append/LIVE/bogus), play (0..3 optional arguments), closeStream, deleteStream, audio, video, @setDataFrame, ping, unknown commands, 11 kinds of malformed argument lists, peer chunk-size change} and application calls {accept / reject with an outstanding, already-used or never-issued id, send audio/video/metadata, finish_playing}; peer messages are encoded by the reference peer and delivered whole or cut in two. Half of the histories start behind an accepted connect + createStream. Plus the bounded-exhaustive enumeration of ALL sequences of length <= 4 (quick) / <= 5 (thorough) over a fixed 13-letter alphabet, from scratch and behind an accepted connect. ModelServer judges clauses (a)-(f) of DESIGN.md C09 and follows the observation where the statement is silent; refused calls are additionally checked by a twin run without them. Non-trivial = the history contains an accepted connect and (a request out of protocol order, or a stale/forged request id, or media on a stream without an accepted publish); distinct = distinct history",
+        rule: "histories of 1..25 operations over peer messages {connect (3 apps, trailing '/', objectEncoding), createStream, publish (created / zero / unknown stream, 3 short keys and rarely a 65500-byte key, modes live/record/append/LIVE/bogus), play (0..3 optional arguments), closeStream, deleteStream, audio, video, @setDataFrame, ping, unknown commands, 11 kinds of malformed argument lists, peer chunk-size change} and application calls {accept / reject with an outstanding, already-used or never-issued id, send audio/video/metadata, finish_playing}; peer messages are encoded by the reference peer and delivered whole or cut in two. Half of the histories start behind an accepted connect + createStream. Plus the bounded-exhaustive enumeration of ALL sequences of length <= 4 (quick) / <= 5 (thorough) over a fixed 13-letter alphabet, from scratch and behind an accepted connect. ModelServer judges clauses (a)-(f) of DESIGN.md C09 and follows the observation where the statement is silent; refused calls are additionally checked by a twin run without them. Non-trivial = the history contains an accepted connect and (a request out of protocol order, or a stale/forged request id, or media on a stream without an accepted publish); distinct = distinct history",
         assumptions: vec![
             "ModelServer is written from the statement; where it is silent (second connect with another app, createStream before connect, play accepted on a publishing stream or vice versa, requests on never-created streams, bogus publish mode, close after finish_playing, malformed messages) nothing is asserted and the model follows the observation",
             "each peer message is delivered in its own call(s) so that an Err (which discards the results of its call) loses only that message's observations",
